@@ -421,6 +421,15 @@ func runCase(scratch string, tc *tCase) map[string]any {
 
 	provider := &stagingProvider{dir: staging}
 	stage(provider, plan, tc.Target, tc.Mode.Missing)
+	if tc.Fault.Kind == "srcread" {
+		entries, _ := os.ReadDir(staging)
+		for _, e := range entries {
+			if !e.IsDir() {
+				must(os.Remove(filepath.Join(staging, e.Name())))
+				must(os.Mkdir(filepath.Join(staging, e.Name()), 0o700))
+			}
+		}
+	}
 
 	var ownership *filesystem.OwnershipSpecification
 	if tc.Mode.Owner {
@@ -795,6 +804,13 @@ func faultSweep(scratch string, jb *job, emit func(rec map[string]any, nontrivia
 		cp := *tc
 		cp.Edits = []edit{{Op: "delete", Path: p}}
 		emit(runCase(scratch, withFault(&cp, "none", 0)), true, false, false)
+	}
+	// copy fault inside the cross-device fallback: the staged "file" can be opened but not read
+	// (a directory sits at the staged path), so the copy into the temporary fails after the
+	// temporary exists; nothing truncated may reach the root and the results must stay exact
+	if tc.Mode.Exdev && len(staged) > 0 {
+		r := runCase(scratch, withFault(tc, "srcread", 0))
+		emit(r, true, false, false)
 	}
 	// staged files missing from the start: each single file, and all of them
 	for _, f := range staged {
